@@ -103,6 +103,16 @@ def run_real(fmt, text, timeout=WATCHDOG_S):
     try:
         try:
             p = getParser(fmt)
+            if isinstance(text, (list, tuple)):
+                # ONE parser object reads the texts one after the other; the outcome of the last one counts
+                for t0 in text[:-1]:
+                    try:
+                        p.parse(t0)
+                    except WatchdogTimeout:
+                        raise
+                    except Exception:  # noqa: BLE001  (judged when that text is the last one)
+                        pass
+                text = text[-1]
             r = p.parse(text)
         finally:
             signal.setitimer(signal.ITIMER_REAL, 0)
